@@ -223,6 +223,13 @@ Record icase := mk_icase {
   ic_impl : option (list Qc);         (* the implementation's result (None: it raised) *)
   ic_bound : Qc }.
 
+(* nodes=None: the model uses its own exact Greville abscissae (the implementation's rounded
+   ones are compared with them within ic_gbound; the effect of that perturbation on the
+   collocation matrices is part of ic_bound) *)
+Definition model_nodes (c : icase) : list (list Qc) :=
+  if ic_default c then map (fun kp => greville (fst kp) (snd kp)) (combine (ic_kvs c) (ic_ps c))
+  else ic_nodes c.
+
 (* 0 = agree; 1 = Greville nodes differ; 2 = singular/raise status differs;
    3 = coefficients differ beyond the bound; 4 = knot vector not open (generator error) *)
 Definition check_icase (c : icase) : nat :=
@@ -230,7 +237,7 @@ Definition check_icase (c : icase) : nat :=
   else if ic_default c &&
      negb (forallb (fun kpn => all_close (ic_gbound c) (greville (fst (fst kpn)) (snd (fst kpn))) (snd kpn))
                    (combine (combine (ic_kvs c) (ic_ps c)) (ic_nodes c))) then 1%nat
-  else match interpolate (ic_kvs c) (ic_ps c) (ic_nodes c) (ic_T c) (ic_data c), ic_impl c with
+  else match interpolate (ic_kvs c) (ic_ps c) (model_nodes c) (ic_T c) (ic_data c), ic_impl c with
        | None, None => 0%nat
        | Some m, Some r => if all_close (ic_bound c) m r then 0%nat else 3%nat
        | _, _ => 2%nat
